@@ -22,8 +22,9 @@ STEP_EVENTS = ("status", "help", "q", "die", "eof", "err", "stderr_broken")
 
 
 class Scheduler:
-    def __init__(self, plan):
-        self.plan = plan            # {step index: [event, ...]}
+    def __init__(self, plan, early=False):
+        self.plan = dict(plan)      # {step index: [event, ...]}
+        self.early = early          # deliver the events of step 0 the moment the keyboard thread is started (wherever that is)
         self.step = 0
         self.lines = queue.Queue()
         self.waiting = _threading.Event()
@@ -54,6 +55,10 @@ class Scheduler:
                 sch.waiting.clear()
                 sch.real.start()
                 sch.quiesce()
+                if sch.early:
+                    # the user typed before anything else happened: handled as soon as the thread exists
+                    for e in sch.plan.pop(0, ()):
+                        sch.deliver(e)
 
             def is_alive(self):
                 return not sch.dead_announced
@@ -120,12 +125,12 @@ class Scheduler:
             self.real.join(2.0)
 
 
-def run_session(pcfg, plan, save_dir, load_config=None, limit=None, storm=False):
+def run_session(pcfg, plan, save_dir, load_config=None, limit=None, storm=False, early=False):
     """One run of the real CrackingSession under schedule [plan].
     Returns dict(out=[guesses], pops=[pt_items], saves=n, save_config, omen_exit, omen_guess_num, steps)."""
     import lib_guesser.cracking_session as cs
     from lib_guesser.priority_queue import PcfgQueue
-    sch = Scheduler(plan)
+    sch = Scheduler(plan, early)
     out, pops = [], []
 
     class SchedQueue(PcfgQueue):
